@@ -115,16 +115,13 @@ func recursiveCheckAllRelationsTypesHaveRelation(p *parser, item item, namespace
 		return
 	}
 	for _, t := range r.Types {
-		if t.Relation == "" {
-			if _, ok := p.query().findRelation(t.Namespace, relation); !ok {
-				p.addErr(item, "relation %q was not declared in namespace %q",
-					relation, t.Namespace)
-			}
-		} else {
-			// Type is a subject set, we need to recursively check if the type has
-			// the required relation.
-			recursiveCheckAllRelationsTypesHaveRelation(
-				p, item, t.Namespace, t.Relation, relation, depth-1)
+		// The check engine evaluates the traversed relation on the object of
+		// every subject found, in that subject's own namespace, whether the
+		// subject is a plain object or a subject set: t.Namespace has to
+		// declare it in both cases.
+		if _, ok := p.query().findRelation(t.Namespace, relation); !ok {
+			p.addErr(item, "relation %q was not declared in namespace %q",
+				relation, t.Namespace)
 		}
 	}
 }
